@@ -265,14 +265,14 @@ def binary(bs, acc, a, b, full, lsb0=False):
                 got = obs(lambda: eval_op(sym, s, s), cb)
                 acc.step(op, 1, nontrivial=1, ok=1)
                 if not exc_match(exp, got) or s.bin != a:
-                    acc.violation(op, 'value' if s.bin == a else 'frame', dict(lcls=lcls, left=a, self_operand=True, views='operands built through %d view / derived routes (length-limited files, offsets, BytesIO, slices, little-endian bitarray) for all pairs of contents of length <= %d' % (len(VIEW_ROUTES), 4 if q else 5)),
+                    acc.violation(op, 'value' if s.bin == a else 'frame', dict(lcls=lcls, left=a, self_operand=True),
                                   snippet([f"s = {mk(lcls, a)}"], f"s {sym} s", exp, conv=CB_SRC), exp, got)
                 if lcls in MUTABLE:
                     got = obs(lambda: inplace_self(sym, s))
                     e2 = ('ok', imodel(op, a, a)[1])
                     acc.step('i' + op, 1, nontrivial=1, ok=1)
                     if got != e2:
-                        acc.violation('i' + op, vkind(e2, got), dict(lcls=lcls, left=a, self_operand=True, views='operands built through %d view / derived routes (length-limited files, offsets, BytesIO, slices, little-endian bitarray) for all pairs of contents of length <= %d' % (len(VIEW_ROUTES), 4 if q else 5)),
+                        acc.violation('i' + op, vkind(e2, got), dict(lcls=lcls, left=a, self_operand=True),
                                       '\n'.join(["import bitstring", f"s = {mk(lcls, a)}", f"s {sym}= s", f"assert s.bin == {e2[1]!r}, s.bin"]), e2, got)
         # De Morgan on the implementation, as a cross-check of the oracle
     if len(a) == len(b) and a:
